@@ -203,7 +203,7 @@ func (c *Client) handlePacket(pktx pkts.Packet) error {
 			}
 		case 2:
 			var transaction *brokerPublishQOS2Transaction
-			transactionx, hasTransaction := c.transactions.Get(pkt.MessageID())
+			transactionx, hasTransaction := c.brokerTransactions.Get(pkt.MessageID())
 			if hasTransaction {
 				// We already have such transaction -> resent PUBLISH.
 				var ok bool
@@ -214,7 +214,7 @@ func (c *Client) handlePacket(pktx pkts.Packet) error {
 				}
 			} else {
 				transaction = newBrokerPublishQOS2Transaction(c, pkt.MessageID())
-				c.transactions.Store(pkt.MessageID(), transaction)
+				c.brokerTransactions.Store(pkt.MessageID(), transaction)
 			}
 			return transaction.Publish(pkt)
 		default:
@@ -229,7 +229,7 @@ func (c *Client) handlePacket(pktx pkts.Packet) error {
 
 	// Broker PUBLISH QoS 2 transaction.
 	case *pkts1.Pubrel:
-		transactionx, hasTransaction := c.transactions.Get(pkt.MessageID())
+		transactionx, hasTransaction := c.brokerTransactions.Get(pkt.MessageID())
 		if !hasTransaction {
 			// The exchange has been already finished, the gateway has not
 			// received our PUBCOMP => send it again.
